@@ -60,13 +60,15 @@ def must_separate(a, b):
 
 
 class Item:
-    __slots__ = ('text', 'no_nl_before', 'nl_after', 'kind')
+    __slots__ = ('text', 'no_nl_before', 'nl_after', 'kind', 'opens', 'closes')
 
     def __init__(self, text, kind='tok'):
         self.text = text
         self.no_nl_before = False
         self.nl_after = False
         self.kind = kind
+        self.opens = []     # statement kinds that start at this token (outermost first)
+        self.closes = 0     # number of statements that end at this token
 
 
 class LuaGen:
@@ -309,6 +311,12 @@ class LuaGen:
         return out
 
     # ---- statements
+    @staticmethod
+    def tag(kind, items):
+        items[0].opens.insert(0, kind)
+        items[-1].closes += 1
+        return items
+
     def simple_stat(self, depth, vararg=False, in_loop=False, no_qmark=False):
         rng = self.rng
         k = rng.randrange(10)
@@ -325,9 +333,9 @@ class LuaGen:
             op = rng.choice(ASSIGNOPS) if n == 1 else b'='
             if op != b'=':
                 self.feat('compound-assign')
-            return out + [self.T(op)] + self.explist(depth, vararg, 1, n + 1 if n > 1 else 1)
+            return self.tag('StatAssignment', out + [self.T(op)] + self.explist(depth, vararg, 1, n + 1 if n > 1 else 1))
         if k < 8:
-            return self.call(depth, vararg)
+            return self.tag('StatFunctionCall', self.call(depth, vararg))
         if k == 8:
             self.feat('qmark-print')
             it = [self.T(b'?')]
@@ -336,7 +344,7 @@ class LuaGen:
             for x in it[1:]:
                 x.no_nl_before = True
             it[-1].nl_after = True
-            return it
+            return self.tag('StatFunctionCall', it)
         self.feat('local')
         out = [self.T(b'local')]
         n = rng.choice([1, 1, 2])
@@ -346,18 +354,18 @@ class LuaGen:
             out.append(self.T(rng.choice(self.names)))
         if rng.random() < 0.8:
             out += [self.T(b'=')] + self.explist(depth, vararg, 1, n)
-        return out
+        return self.tag('StatLocalAssignment', out)
 
     def last_stat(self, depth, vararg, in_loop, in_func):
         rng = self.rng
         if in_loop and rng.random() < 0.5:
             self.feat('break')
-            return [self.T(b'break')]
+            return self.tag('StatBreak', [self.T(b'break')])
         self.feat('return')
         out = [self.T(b'return')]
         if rng.random() < 0.7:
             out += self.explist(depth, vararg, 1, 2)
-        return out
+        return self.tag('StatReturn', out)
 
     def short_if(self, depth, vararg, in_loop, in_func):
         rng = self.rng
@@ -393,7 +401,7 @@ class LuaGen:
         for x in out[1:]:
             x.no_nl_before = True
         out[-1].nl_after = True
-        return out
+        return self.tag('StatIfShort', out)
 
     def stat(self, depth, vararg=False, in_loop=False, in_func=False):
         rng = self.rng
@@ -402,13 +410,13 @@ class LuaGen:
             return self.simple_stat(depth, vararg, in_loop)
         if k == 9:
             self.feat('do')
-            return [self.T(b'do')] + self.block(depth - 1, vararg, in_loop, in_func) + [self.T(b'end')]
+            return self.tag('StatDo', [self.T(b'do')] + self.block(depth - 1, vararg, in_loop, in_func) + [self.T(b'end')])
         if k == 10:
             self.feat('while')
-            return [self.T(b'while')] + self.exp(depth - 1, vararg) + [self.T(b'do')] + self.block(depth - 1, vararg, True, in_func) + [self.T(b'end')]
+            return self.tag('StatWhile', [self.T(b'while')] + self.exp(depth - 1, vararg) + [self.T(b'do')] + self.block(depth - 1, vararg, True, in_func) + [self.T(b'end')])
         if k == 11:
             self.feat('repeat')
-            return [self.T(b'repeat')] + self.block(depth - 1, vararg, True, in_func) + [self.T(b'until')] + self.exp(depth - 1, vararg)
+            return self.tag('StatRepeat', [self.T(b'repeat')] + self.block(depth - 1, vararg, True, in_func) + [self.T(b'until')] + self.exp(depth - 1, vararg))
         if k in (12, 13):
             self.feat('if')
             out = [self.T(b'if')] + self.exp(depth - 1, vararg) + [self.T(b'then')] + self.block(depth - 1, vararg, in_loop, in_func)
@@ -418,7 +426,7 @@ class LuaGen:
             if rng.random() < 0.4:
                 self.feat('else')
                 out += [self.T(b'else')] + self.block(depth - 1, vararg, in_loop, in_func)
-            return out + [self.T(b'end')]
+            return self.tag('StatIf', out + [self.T(b'end')])
         if k in (14, 15, 16):
             if self.in_short_if:
                 return self.simple_stat(depth, vararg, in_loop)
@@ -428,13 +436,13 @@ class LuaGen:
             out = [self.T(b'for'), self.T(rng.choice(self.names)), self.T(b'=')] + self.exp(depth - 1, vararg) + [self.T(b',')] + self.exp(depth - 1, vararg)
             if rng.random() < 0.4:
                 out += [self.T(b',')] + self.exp(depth - 1, vararg)
-            return out + [self.T(b'do')] + self.block(depth - 1, vararg, True, in_func) + [self.T(b'end')]
+            return self.tag('StatForStep', out + [self.T(b'do')] + self.block(depth - 1, vararg, True, in_func) + [self.T(b'end')])
         if k == 18:
             self.feat('for-in')
             out = [self.T(b'for'), self.T(rng.choice(self.names))]
             if rng.random() < 0.5:
                 out += [self.T(b','), self.T(rng.choice(self.names))]
-            return out + [self.T(b'in')] + self.explist(depth - 1, vararg, 1, 2) + [self.T(b'do')] + self.block(depth - 1, vararg, True, in_func) + [self.T(b'end')]
+            return self.tag('StatForIn', out + [self.T(b'in')] + self.explist(depth - 1, vararg, 1, 2) + [self.T(b'do')] + self.block(depth - 1, vararg, True, in_func) + [self.T(b'end')])
         if k in (19, 20):
             self.feat('function-stat')
             out = [self.T(b'function'), self.T(rng.choice(self.names + [b'_update60', b'_draw', b'_init']))]
@@ -442,16 +450,16 @@ class LuaGen:
                 out += [self.T(b'.'), self.T(rng.choice(self.names))]
             if rng.random() < 0.2:
                 out += [self.T(b':'), self.T(rng.choice(self.names))]
-            return out + self.funcbody(depth - 1)
+            return self.tag('StatFunction', out + self.funcbody(depth - 1))
         if k == 21:
             self.feat('local-function')
-            return [self.T(b'local'), self.T(b'function'), self.T(rng.choice(self.names))] + self.funcbody(depth - 1)
+            return self.tag('StatLocalFunction', [self.T(b'local'), self.T(b'function'), self.T(rng.choice(self.names))] + self.funcbody(depth - 1))
         if k == 22:
             self.feat('goto')
             lbl = rng.choice(self.names)
-            return [self.T(b'goto'), self.T(lbl)]
+            return self.tag('StatGoto', [self.T(b'goto'), self.T(lbl)])
         self.feat('label')
-        return [self.T(b'::' + rng.choice(self.names) + b'::')]
+        return self.tag('StatLabel', [self.T(b'::' + rng.choice(self.names) + b'::')])
 
     def block(self, depth, vararg=False, in_loop=False, in_func=False, n=None):
         rng = self.rng
@@ -543,3 +551,18 @@ def gen_program(rng, style=None, **kw):
     items = g.program()
     style = style or rng.choice(['random', 'random', 'compact', 'spaced', 'lines'])
     return layout(rng, items, style), items, g.features
+
+
+def expected_statements(items):
+    """[(kind, first item index, last item index)] in source order of statement starts (outermost first)."""
+    out = []
+    stack = []
+    for i, it in enumerate(items):
+        for k in it.opens:
+            stack.append((k, i, len(out)))
+            out.append(None)
+        for _ in range(it.closes):
+            k, start, slot = stack.pop()
+            out[slot] = (k, start, i)
+    assert not stack
+    return out
